@@ -15,6 +15,19 @@ structure Flags where
   allowUnknownBlocks : Bool := false  -- ;k / ;K
 deriving Repr, DecidableEq, Inhabited
 
+/-- the flags the compiler and the matcher read *after* the whitespace pre-pass: nothing
+    downstream of `compileProg` can depend on `x`, `;g`, `;k` because it never sees them -/
+structure CFlags where
+  caseBlind : Bool := false
+  multiLine : Bool := false
+  singleLine : Bool := false
+  literal : Bool := false
+  xsd : Bool := false
+deriving Repr, DecidableEq, Inhabited
+
+def Flags.core (f : Flags) : CFlags :=
+  { caseBlind := f.caseBlind, multiLine := f.multiLine, singleLine := f.singleLine, literal := f.literal, xsd := f.xsd }
+
 /-- after `;` -/
 def parseFlagsTail : List Nat → Flags → Option Flags
   | [], r => some r
